@@ -42,11 +42,11 @@ def forests(nb_max, nc_max, trees_only=False):
     return out
 
 
-def run_tlc_enum(name, nb, nc, invariants, seed_, trees_only, as_coded=False, workers=8, timeout=1700):
+def run_tlc_enum(name, nb, nc, invariants, seed_, trees_only, as_coded=False, workers=8, timeout=1700, metamorphic=False):
     cfg = os.path.join(C.WORK, "cfg_%s.cfg" % name)
     os.makedirs(C.WORK, exist_ok=True)
     C.write_cfg(cfg, constants={"P": P, "SEED": seed_, "NB": nb, "NC": nc, "AS_CODED_LAST": as_coded,
-                                "TREES_ONLY": trees_only, "EMIT": True},
+                                "TREES_ONLY": trees_only, "EMIT": True, "METAMORPHIC": bool(metamorphic)},
                 invariants=invariants, constraints=["Emit"])
     res = C.run_tlc("MC_Hines", cfg, name, workers=workers, timeout=timeout, coverage=True)
     cfgs = []
